@@ -559,8 +559,12 @@ func (fr *frame) instr(in ssa.Instruction) {
 		if isString(x.X.Type()) {
 			s := fr.val(x.X)
 			i := fr.asIdx(x.Index)
-			fr.oblige("idx", e.srcText(x.Pos(), "index"), x.Pos(), app(SBool, "bvult", i, s.strLen()))
-			fr.set(x, &Val{T: x.Type(), L: []Term{mkSelect(s.strArr(), app(SIdx, "bvadd", s.strOff(), i))}})
+			fr.oblige("idx", e.srcText(x.Pos(), "index"), x.Pos(), idxInRange(i, s.strLen()))
+			bt := mkSelect(s.strArr(), app(SIdx, "bvadd", s.strOff(), i))
+			if gInt {
+				bt = ft.rangedDef("sb", bt, func(x Term) Term { return inTypeRange(x, 8, false) })
+			}
+			fr.set(x, &Val{T: x.Type(), L: []Term{bt}})
 			return
 		}
 		m := fr.val(x.X)
@@ -648,6 +652,14 @@ func (fr *frame) asIdx(v ssa.Value) Term {
 }
 
 func extendTo(t Term, w int, signed bool, to int) Term {
+	if gInt {
+		// value-preserving when widening an unsigned or any widening kept in range; narrowing wraps modulo 2^to.
+		// Same-width conversions between signed and unsigned are handled by convertInt (needs target signedness).
+		if to >= w {
+			return t
+		}
+		return Term{SInt, fmt.Sprintf("(mod %s %s)", t.T, pow2(to).String())}
+	}
 	if w == to {
 		return t
 	}
@@ -667,7 +679,7 @@ func (fr *frame) indexAddr(x *ssa.IndexAddr) {
 	text := ft.e.srcText(x.Pos(), "index")
 	et := x.Type().Underlying().(*types.Pointer).Elem()
 	if isSlice(x.X.Type()) {
-		fr.oblige("idx", text, x.Pos(), app(SBool, "bvult", i, base.sLen()))
+		fr.oblige("idx", text, x.Pos(), idxInRange(i, base.sLen()))
 		bk := base.backing()
 		ai := ft.c.Define("ai", app(SIdx, "bvadd", base.sOff(), i))
 		ft.c.AddInst(ai)
@@ -677,7 +689,7 @@ func (fr *frame) indexAddr(x *ssa.IndexAddr) {
 	}
 	// pointer to array
 	at := x.X.Type().Underlying().(*types.Pointer).Elem().Underlying().(*types.Array)
-	fr.oblige("idx", text, x.Pos(), app(SBool, "bvult", i, idxInt(at.Len())))
+	fr.oblige("idx", text, x.Pos(), idxInRange(i, idxInt(at.Len())))
 	lv := base.loc()
 	nlv := lv.extend(Step{Idx: &i}, et)
 	fr.vals[x] = &Val{T: x.Type(), L: []Term{base.L[0]}, LV: nlv}
@@ -689,7 +701,7 @@ func (fr *frame) indexVal(x *ssa.Index) {
 	i := fr.asIdx(x.Index)
 	text := fr.ft.e.srcText(x.Pos(), "index")
 	if at, ok := x.X.Type().Underlying().(*types.Array); ok {
-		fr.oblige("idx", text, x.Pos(), app(SBool, "bvult", i, idxInt(at.Len())))
+		fr.oblige("idx", text, x.Pos(), idxInRange(i, idxInt(at.Len())))
 		fr.set(x, base.index(i))
 		return
 	}
@@ -719,7 +731,7 @@ func (fr *frame) sliceOp(x *ssa.Slice) {
 		if hi != nil {
 			h = *hi
 		}
-		fr.oblige("slice", text, x.Pos(), mkAnd(app(SBool, "bvule", l, h), app(SBool, "bvule", h, base.strLen())))
+		fr.oblige("slice", text, x.Pos(), mkAnd(uLe(l, h), uLe(h, base.strLen())))
 		fr.set(x, &Val{T: x.Type(), L: []Term{base.strArr(), app(SIdx, "bvadd", base.strOff(), l), app(SIdx, "bvsub", h, l)}})
 		return
 	}
@@ -752,7 +764,7 @@ func (fr *frame) sliceOp(x *ssa.Slice) {
 		m = *mx
 	}
 	// Go: 0 <= low <= high <= max <= cap
-	goal := mkAnd(app(SBool, "bvule", l, h), app(SBool, "bvule", h, m), app(SBool, "bvule", m, cp))
+	goal := mkAnd(uLe(l, h), uLe(h, m), uLe(m, cp))
 	fr.oblige("slice", text, x.Pos(), goal)
 	out := &Val{T: x.Type(), L: []Term{ref, app(SIdx, "bvadd", off, l), app(SIdx, "bvsub", h, l), app(SIdx, "bvsub", m, l)}, Rg: rg}
 	nv := ft.nameVal(x.Name(), out)
@@ -766,7 +778,7 @@ func (fr *frame) makeSlice(x *ssa.MakeSlice) {
 	ln := fr.asIdx(x.Len)
 	cp := fr.asIdx(x.Cap)
 	fr.oblige("neglen", text, x.Pos(), mkAnd(app(SBool, "bvsge", ln, idxInt(0)), app(SBool, "bvsle", ln, cp)))
-	fr.oblige("alloc-cap", text, x.Pos(), app(SBool, "bvule", cp, idxInt(allocCap)))
+	fr.oblige("alloc-cap", text, x.Pos(), uLe(cp, idxInt(allocCap)))
 	fr.vals[x] = fr.newSlice(x.Type(), ln, cp)
 }
 
@@ -833,6 +845,9 @@ func (fr *frame) loadFrom(addr *Val, t types.Type, pos token.Pos) *Val {
 	}
 	v := fr.ft.load(fr.cur.mem, lv)
 	v.T = t
+	if len(lv.Steps) == 0 && fr.ft.e.nonNilGlobals[lv.Root] && isInterface(t) {
+		fr.assume(mkNot(mkEq(v.L[0], intConst(0))))
+	}
 	return v
 }
 
